@@ -492,4 +492,27 @@ theorem inv_initWith {k : Nat} (hk : k ≤ 31) (start : BitVec 32) :
       obtain ⟨j, _, rfl⟩ := hx
       exact Nat.mod_lt _ hM
 
+theorem specLive_filter (l : Spec) (idx : Nat) :
+    specLive (l.filter (fun a => a.1 ≠ idx)) idx = false := by
+  cases h : specLive (l.filter (fun a => a.1 ≠ idx)) idx with
+  | false => rfl
+  | true =>
+    have := (specLive_iff _ _).mp h
+    simp only [idxs, List.mem_map, List.mem_filter] at this
+    obtain ⟨e, ⟨_, he⟩, rfl⟩ := this
+    simp at he
+
+/-- on the reference side a second removal of the same index is refused -/
+theorem specRemove_twice (cap : Nat) (l : Spec) (idx : Nat) :
+    specRemove cap (specRemove cap l idx).1 idx =
+      ((specRemove cap l idx).1, if idx ≥ cap then .beyondRange else .dupFree) := by
+  by_cases hge : idx ≥ cap
+  · simp [specRemove, hge]
+  · by_cases hl : specLive l idx = true
+    · have hf := specLive_filter l idx
+      simp only [specRemove, hge, if_false, hl, if_true, hf]
+      simp
+    · have hl' : specLive l idx = false := by simpa using hl
+      simp [specRemove, hge, hl']
+
 end MgProof.C11.PS
